@@ -4,9 +4,16 @@ the generated table `Gen.sharedWrites` and by the `-race` differential run), the
 correspondence case, its outcome and the specification.
 
 Footprints, per operation kind (cells: 0 document, 1 routers, 2 `sliceUniqueItemsChecker`, 3 an object-valued
-`default` stored in the document, 10+2p compiled pattern p, 11+2t type info of Go type t):
+`default` stored in the document, 4 the process-wide format / body-decoder registries, 10+3p compiled pattern p, 11+3t type info of Go type t, 12+3(64i+j) element j of the
+backing array of `PathItem.Parameters` of path item i — `decodedCap n` of them exist for n declared parameters):
 
   FindRoute (gorillamux / legacy)   read doc, read router
+  ValidateRequest                   ranges over the path-level parameters of its path item (reads of the slice's
+                                    elements), then over the operation's own parameters (document reads). The two loops
+                                    are separate; a merged loop over `append(pathItemParameters, operationParameters...)`
+                                    would STORE the operation's parameters in the path item's backing array whenever the
+                                    decoded slice has spare capacity (3, 5-7, 9-15 … parameters): `appendActs`,
+                                    theorems `merged_parameter_loops_*`
   ValidateRequest / ValidateResponse / VisitJSON
                                     read doc (+ router); per `pattern` keyword reached: cacheUse of the process-wide
                                     pattern cache, keyed by pattern text (the cached matcher is used if there is one,
@@ -17,11 +24,12 @@ Footprints, per operation kind (cells: 0 document, 1 routers, 2 `sliceUniqueItem
                                     deep-copied first (`value[propName] = deepcopy.Copy(dflt)`; before commit
                                     afcfd61 it was shared and nested defaults were written INTO the document:
                                     F-C15-1, now a regression theorem) — the document's default is only read
-  openapi3gen.NewSchemaRefForValue  cacheFill of the type-info cache under `typeInfosMutex`: the first published
-                                    descriptor wins (before commit 9118e72 every first user stored its own and
+  openapi3gen.NewSchemaRefForValue  fillUse of the type-info cache under `typeInfosMutex`: the first published
+                                    descriptor wins and is the one every caller uses (before commit 9118e72 every first user stored its own and
                                     cycle detection by pointer could see two: F-C15-2, now a regression theorem)
 -/
 import KinModel.Conc
+import KinModel.ConcSlice
 namespace KinModel.Conc
 
 inductive OpKind | frg | frl | vreq | vresp | visit | gen
@@ -37,14 +45,24 @@ structure OpM where
   genType : Nat := 0
   recursive : Bool := false      -- the Go type handed to the generator refers to itself
   dialect : Nat := 0             -- per-call regex compiler (Options.RegexCompiler / SetSchemaRegexCompiler): 0 = default
+  item : Nat := 0                -- the path item the operation belongs to (operations under one path share it)
+  itemParams : Nat := 0          -- number of path-level parameters of that path item
+  ownParams : Nat := 0           -- number of the operation's own parameters
+  registries : Bool := false     -- reads a process-wide registry: a `format` keyword is reached (SchemaStringFormats /
+                                 -- SchemaNumberFormats / SchemaIntegerFormats), a body is decoded (bodyDecoders)
   deriving DecidableEq, Repr
 
 def docCell : Cell := 0
 def routerCell : Cell := 1
 def uniqCell : Cell := 2
 def dfltCell : Cell := 3
-def patCell (p : Nat) : Cell := 10 + 2 * p
-def typeCell (t : Nat) : Cell := 11 + 2 * t
+def regCell : Cell := 4          -- the format / body-decoder registries: written by registration functions only
+def patCell (p : Nat) : Cell := 10 + 3 * p
+def typeCell (t : Nat) : Cell := 11 + 3 * t
+def sliceCell (i j : Nat) : Cell := 12 + 3 * (64 * i + j)
+
+/-- `PathItem.Parameters` of path item `i` with `n` declared parameters, as encoding/json leaves it -/
+def itemHdr (n : Nat) : Hdr := ⟨n, decodedCap n⟩
 
 def usesRouter : OpKind → Bool
   | .frg | .frl | .vreq | .vresp => true
@@ -59,14 +77,19 @@ def validates : OpKind → Bool
 def opActs (_tid : Nat) (o : OpM) : List Act :=
   [Act.read docCell] ++
   (if usesRouter o.kind then [Act.read routerCell] else []) ++
+  -- ValidateRequest: `for _, parameterRef := range pathItemParameters` (the operation's own parameters: document reads)
+  (if o.kind = .vreq then rangeActs (sliceCell o.item) o.itemParams else []) ++
   -- visitJSONString USES the matcher the process-wide cache holds for the pattern TEXT, else compiles with the
   -- call's own regex compiler; `compilePattern` never fills the cache (CompareAndSwap(pattern, nil, cp))
   (if validates o.kind then o.patterns.map (fun p => Act.cacheUse (patCell p) (1 + o.dialect)) else []) ++
   (if validates o.kind && o.arrays then [Act.lazyInit uniqCell 7] else []) ++
-  -- getTypeInfo: the first published descriptor wins — a fill, for recursive types too
-  (if o.kind = .gen then [Act.cacheFill (typeCell o.genType) (o.genType + 1)] else []) ++
+  -- getTypeInfo: the first published descriptor wins, and the caller goes on with the PUBLISHED one (cycle detection
+  -- compares descriptor pointers): a load-or-publish whose result is used; the descriptor is a function of the type
+  (if o.kind = .gen then [Act.fillUse (typeCell o.genType) (o.genType + 1)] else []) ++
   -- an object-valued default is deep-copied into the request value; error texts print the schema: plain reads
-  (if validates o.kind && o.sharedDefault then [Act.read dfltCell] else [])
+  (if validates o.kind && o.sharedDefault then [Act.read dfltCell] else []) ++
+  -- `SchemaStringFormats[format]`, `bodyDecoders[mediaType]`: plain reads of maps that only registration functions write
+  (if validates o.kind && o.registries then [Act.read regCell] else [])
 
 structure CaseM where
   ops : List OpM
@@ -77,7 +100,8 @@ structure CaseM where
 
 def caseCfg (c : CaseM) : Cfg :=
   { cache := c.ops.map (fun o => typeCell o.genType),   -- the pattern cells are NOT caches: nothing fills them
-    lazy := [uniqCell] }
+    lazy := [uniqCell],
+    det := c.ops.map (fun o => (typeCell o.genType, o.genType + 1)) }   -- one descriptor per Go type
 
 /-- initial state: document and routers built, the uniqueness checker initialised by its declaration,
     caches cold, the shared default object without the nested key -/
@@ -121,7 +145,7 @@ structure Outcome where
   docChanged : Bool
   deriving DecidableEq, Repr
 
-def docCells : List Cell := [docCell, routerCell, uniqCell, dfltCell]
+def docCells : List Cell := [docCell, routerCell, uniqCell, dfltCell, regCell]
 
 def outcomeOf (n : Nat) (tr : Trace) : Outcome :=
   { race := raceInB (events sigma0 tr),
@@ -130,6 +154,16 @@ def outcomeOf (n : Nat) (tr : Trace) : Outcome :=
 
 /-- the model's outcome of a correspondence case -/
 def outcome (c : CaseM) : Outcome := outcomeOf c.g (caseTrace c)
+
+/-- configuration in which the uniqueness checker is NOT assumed initialised: it is treated as a read-back cache whose
+    key (the one checker variable) determines the value every racer installs (`isSliceOfUniqueItems`, 7) -/
+def caseCfgU (c : CaseM) : Cfg :=
+  { cache := uniqCell :: c.ops.map (fun o => typeCell o.genType),
+    lazy := [],
+    det := (uniqCell, 7) :: c.ops.map (fun o => (typeCell o.genType, o.genType + 1)) }
+
+/-- the state of a process in which the checker's declaration lost its initialiser (seeded change C15-m2) -/
+def sigmaU : State := fun c => if c = docCell then 1 else if c = routerCell then 1 else 0
 
 /-- the specification: no data race, every verdict as when run alone, the document untouched -/
 def specOutcome : Outcome := ⟨false, false, false⟩
